@@ -10,3 +10,4 @@ package defs
 //@ global ListenerLineBufferSize == 4195328 && IntermediateBufferMaxNumLogs == 500 && IntermediateBufferMaxTotalBytes == 4194304
 //@ global BufferMaxNumChunksInQueue == 500000 && BufferMaxNumChunksInMemory == 500 && ForwarderMaxPendingChunksForAck == 10
 //@ global IntermediateBufferedChannelSize == 1
+//@ global ForwarderBatchSendMinimumSpeed == 10240
